@@ -39,11 +39,9 @@ def run(ctx) -> None:
     vc = prog.function("vcs.commit")
     ctx.visit(upd.fq, vc.fq)
     # ---------------------------------------------------------------- R1
-    fp = shapes.single_def(upd, "filepaths")
-    ctx.check("R1", fp is not None and unparse(fp) in ("set(cfg.file_patterns.keys())", "set(cfg.file_patterns)"), "_update: filepaths = set(cfg.file_patterns.keys())",
-              "cli._update: the staged file set is not the configured file set", unparse(fp) if fp is not None else "None", loc=upd.loc())
-    shapes.check_passthrough(ctx, "R1", upd.fq, "vcs.commit", {"filepaths": "filepaths", "cfg": "cfg", "vcs_api": "vcs_api", "new_version": "new_version"})
-    shapes.check_passthrough(ctx, "R1", upd.fq, "vcs.assert_not_dirty", {"filepaths": "filepaths"})
+    FILESET = ("set(cfg.file_patterns.keys())", "set(cfg.file_patterns)")
+    shapes.check_passthrough(ctx, "R1", upd.fq, "vcs.commit", {"filepaths": FILESET, "cfg": "cfg", "vcs_api": "vcs_api", "new_version": "new_version"})
+    shapes.check_passthrough(ctx, "R1", upd.fq, "vcs.assert_not_dirty", {"filepaths": FILESET})
     adds = shapes.find_calls(prog, vc, "vcs.VCSAPI.add")
     ctx.floor("R1", "add() call sites in vcs.commit", len(adds), 1)
     for c in adds:
